@@ -111,7 +111,7 @@ def main(tier, seed, only=None):
                       functions=['py4hw/base.py::Wire.settleAll'] + ['py4hw/simulation.py::' + f for f in FUNCS[1:]] + [L.LEAVES[k].qual + ' (frame)' for k in leaves],
                       assumptions=['abstract clock contract (L1) used for obj.clock(): reads values only, never stores one, touches only its own state and the next of wires it drives, appends only those wires to Wire.prepared; state\' = Fstate(obj, state, epoch) with epoch a ghost identifying the current value map',
                                    'listeners notified at the end of a cycle do not touch the circuit (assumed: _notifyListeners modifies nothing)',
-                                   'the lists of distinct clock domains are distinct objects and every block is listed under exactly one driver (requires of _clk_cycle; established by topologicalSort -- not proved)',
+                                   'the lists of distinct clock domains are distinct objects and every block is listed once, under exactly one driver: the requires of _clk_cycle are the ensures of topologicalSort (proved: registration loop, getOrCreateClockDriverSimulator, addClockable), stated there with nearest() and existentials, here with the ghost functions dom / cidx / kidx (Skolem forms); assumed: allLeaves returns every clockable object once',
                                    'permutation invariance from the pointwise characterisation: adjacent transpositions generate all permutations (meta-step)',
                                    common.dropped_note()],
                       bounded_parts=[{'what': 'real design (register chain, accumulator feedback, synchronous memory, counter): shuffled clockables lists give identical 40-cycle traces; Wire.prepared empty after every clk; clk(n) vs n x clk(1) for splittings [2],[3,1],[5]'}],
